@@ -35,5 +35,6 @@ func runC05(r *hk.Run) {
 	runEncoders(r, rng.Fork())
 	runRequestWriter(r, rng.Fork())
 	runH2EncoderSeq(r, rng.Fork())
+	runH2Conn(r, rng.Fork())
 	runHeaderMap(r, rng.Fork())
 }
